@@ -1319,11 +1319,12 @@ reply_parse(struct evdns_base *base, u8 *packet, int length)
 		tmp_name[0] = '\0';
 		cmp_name[0] = '\0';
 		k = j;
+		/* a question we cannot read is not this request's question */
 		if (name_parse(packet, length, &j, tmp_name, sizeof(tmp_name)) < 0)
-			goto err;
+			return -1;
 		if (name_parse(req->request, req->request_len, &k,
 			cmp_name, sizeof(cmp_name))<0)
-			goto err;
+			return -1;
 		if (!base->global_randomize_case) {
 			if (strcmp(tmp_name, cmp_name) == 0)
 				name_matches = 1;
@@ -1334,7 +1335,7 @@ reply_parse(struct evdns_base *base, u8 *packet, int length)
 
 		j += 4;
 		if (j > length)
-			goto err;
+			return -1;
 	}
 
 	/* A reply that is about some other name says nothing about this
